@@ -1233,6 +1233,8 @@ class Interp:
                 return None
             if name == "keys" and isinstance(obj, ParamDict):
                 return sorted(obj.present)
+            if name == "copy" and isinstance(obj, ParamDict) and not args:
+                return ParamDict({}, present=set(obj.present) | set(obj.entries), make=obj.get)
             if name == "get" and isinstance(obj, ParamDict):
                 if args[0] in obj.present or (args[0] in obj.entries):
                     return obj.get(args[0])
@@ -1356,6 +1358,11 @@ class Interp:
                 return dict(kwargs)
             if base == "dict" and len(args) == 1 and isinstance(args[0], dict):
                 return dict(args[0], **kwargs)
+            if base == "dict" and len(args) == 1 and isinstance(args[0], ParamDict):
+                # a copy of the parameter dictionary (with overrides): the same entries, another object
+                src, over = args[0], dict(kwargs)
+                return ParamDict({}, present=set(src.present) | set(src.entries) | set(over),
+                                 make=lambda key: over[key] if key in over else src.get(key))
             if base == "dict" and len(args) == 1 and isinstance(args[0], (list, tuple)) and all(isinstance(kv, (list, tuple)) and len(kv) == 2 and isinstance(kv[0], (str, int)) for kv in args[0]):
                 return dict([(kv[0], kv[1]) for kv in args[0]], **kwargs)
             if base in ("getattr", "hasattr", "setattr") and len(args) >= 2 and isinstance(args[1], str) and isinstance(args[0], (SelfObj, ObjStub)):
@@ -1638,8 +1645,78 @@ class GvnDomain:
                 return A.const({"exp": 1, "cos": 1, "sin": 0, "deg2rad": 0}[fn])
             if fn == "log" and a.const_value() == 1:
                 return A.const(0)
+            if fn == "log":
+                r = self._log_norm(a)
+                if r is not None:
+                    return r
             return A.opaque(fn, [a], positive=(fn == "exp"))
         raise AnalysisError("unsupported function %s" % fn)
+
+    def _log_norm(self, a, depth=0):
+        """log of a product of positive quantities = sum of the logs (exponents come out as factors): the normal form in which
+        log(p / rho**gamma) and log(p) - gamma*log(rho) are the same ring element.  None: not a product of known-positive atoms."""
+        from .algebra import RF, QExp
+        A = self.alg
+        if depth > 3:
+            return None
+        if A.atoms_of(a, "defined"):
+            a = A.expand_all(a)          # (as the interning of opaque arguments does)
+        if len(a.num) > 1:
+            # a monomial common to every term (same atom, same exponent) comes out: (g*m - m)/(g - 1) = m * ((g - 1)/(g - 1))
+            monos = list(a.num.keys())
+            common = [ae for ae in monos[0] if all(ae in m for m in monos[1:])]
+            if common:
+                cm = tuple(common)
+                cs = set(common)
+                rest = {tuple(ae for ae in m if ae not in cs): c for m, c in a.num.items()}
+                if len(rest) == len(a.num):
+                    crf = RF(A, {cm: Fraction(1)}, ())
+                    rrf = RF(A, rest, ())
+                    for fid, mult in a.den:
+                        for _ in range(mult):
+                            rrf = A.div(rrf, RF(A, dict(A.factors[fid]), ()))
+                    if A.sign(crf) == "+" and A.sign(rrf) == "+":
+                        lc = self._log_norm(crf, depth + 1)
+                        lc = lc if lc is not None else A.opaque("log", [crf])
+                        if rrf.const_value() == 1:
+                            return lc
+                        lr = self._log_norm(rrf, depth + 1)
+                        lr = lr if lr is not None else A.opaque("log", [rrf])
+                        return A.add(lc, lr)
+        if a.den:
+            num, den = RF(A, a.num, ()), RF(A, A.den_poly(a), ())
+            if A.sign(num) == "+" and A.sign(den) == "+":
+                ln_, ld_ = self._log_norm(num, depth + 1), self._log_norm(den, depth + 1)
+                ln_ = ln_ if ln_ is not None else A.opaque("log", [num])
+                ld_ = ld_ if ld_ is not None else A.opaque("log", [den])
+                return A.sub(ln_, ld_)
+            return None
+        if len(a.num) != 1:
+            return None
+        (mono, c), = a.num.items()
+        if c <= 0 or not mono:
+            return None
+        if len(mono) == 1 and mono[0][1] == 1 and c == 1:
+            return None                  # a single atom: its log IS the (opaque) normal form
+        out = A.const(0) if c == 1 else A.opaque("log", [A.const(c)])
+        for aid, e in mono:
+            at = A.atoms[aid]
+            arf = A.atom_rf(at)
+            if A.sign(arf) != "+":
+                return None
+            if isinstance(e, QExp):
+                g = A.atom_rf(A.gamma)
+                n_ = A.const(0)
+                for i, cc in enumerate(e.num):
+                    n_ = A.add(n_, A.mul(A.const(cc), A.pow(g, i)))
+                d_ = A.const(0)
+                for i, cc in enumerate(e.den):
+                    d_ = A.add(d_, A.mul(A.const(cc), A.pow(g, i)))
+                erf = A.div(n_, d_)
+            else:
+                erf = A.const(e)
+            out = A.add(out, A.mul(erf, A.opaque("log", [arf])))
+        return out
 
     def func2(self, fn, a, b):
         r = self.alg.maximum(a, b) if fn == "maximum" else self.alg.minimum(a, b)
